@@ -17,6 +17,7 @@ type clock struct {
 	ClockJumpNum int // out of FaultDen per Now() call
 	ClockJumpMax time.Duration
 	timers       []*simTimer
+	retired      []*simTimer // dead timers moved out of the scanned list (findTimer brings them back)
 	timeUsed     bool
 }
 
@@ -89,12 +90,45 @@ func (s *Sim) nextTimer() (time.Duration, bool) {
 //go:norace
 func (s *Sim) addTimer(tm *simTimer) {
 	n := len(s.timers)
-	bigger := make([]*simTimer, n+1)
-	for i := 0; i < n; i++ {
-		bigger[i] = s.timers[i]
+	if n == cap(s.timers) {
+		// Stopped and fired timers are moved out of the list the clock scans
+		// (they stay findable: a timer can be reset through its handle); a
+		// library that arms a timer per operation would otherwise make every
+		// step, and every insertion, cost as much as the run is long.
+		live := 0
+		for i := 0; i < n; i++ {
+			if !s.timers[i].dead {
+				live++
+			}
+		}
+		bigger := make([]*simTimer, 0, 2*live+16)
+		for i := 0; i < n; i++ {
+			if t := s.timers[i]; !t.dead {
+				bigger = bigger[:len(bigger)+1]
+				bigger[len(bigger)-1] = t
+			} else {
+				s.retire(t)
+			}
+		}
+		s.timers = bigger
+		n = len(bigger)
 	}
-	bigger[n] = tm
-	s.timers = bigger
+	s.timers = s.timers[:n+1]
+	s.timers[n] = tm
+}
+
+//go:norace
+func (s *Sim) retire(tm *simTimer) {
+	n := len(s.retired)
+	if n == cap(s.retired) {
+		bigger := make([]*simTimer, n, 2*n+16)
+		for i := 0; i < n; i++ {
+			bigger[i] = s.retired[i]
+		}
+		s.retired = bigger
+	}
+	s.retired = s.retired[:n+1]
+	s.retired[n] = tm
 }
 
 // SimNow returns the run's simulated time.
@@ -195,6 +229,17 @@ func (s *Sim) findTimer(key interface{}) *simTimer {
 	for i := 0; i < len(s.timers); i++ {
 		if s.timers[i].key == key {
 			return s.timers[i]
+		}
+	}
+	for i := len(s.retired) - 1; i >= 0; i-- {
+		if tm := s.retired[i]; tm.key == key {
+			// back among the timers the clock scans: it may be reset now
+			for k := i; k+1 < len(s.retired); k++ {
+				s.retired[k] = s.retired[k+1]
+			}
+			s.retired = s.retired[:len(s.retired)-1]
+			s.addTimer(tm)
+			return tm
 		}
 	}
 	return nil
